@@ -1,8 +1,18 @@
 (* Property C13 — queue lifecycle: a queue closes only when empty and follows its parent.
-   Property theorems only; each is closed by [exact] of a lemma of C13/Lemmas.v.
-   Every theorem is about the step taken after an ARBITRARY history [h] from an
-   ARBITRARY initial state [s0] (any forest incl. dangling parents, any combination of
-   states and markers, any lister view, any PodGroup index, any pending requests).
+   Property theorems only; each is closed by [exact] of a lemma of C13/Lemmas.v / PreFix.v.
+
+   Two kinds of statements, kept apart on purpose:
+   * STEP theorems ("forall s ...") are about ONE step of the controller from an ARBITRARY
+     state s (any forest incl. dangling parents, any combination of states and markers, any
+     lister view, any PodGroup index, any pending requests).  They therefore hold at every
+     point of every history, but they say nothing about what several steps achieve together.
+   * HISTORY theorems ("forall s0 h ... run s0 h") are proved by induction over the event
+     list (an invariant preserved by [step], lifted over [run]): C13_root_never_closed,
+     C13_moves_only_on_command_or_parent, C13_index_stays_complete,
+     C13_closed_only_when_no_podgroup_exists.
+   * The QUIESCENCE statements (what holds once the lister has caught up and nothing is
+     pending) are FALSE for this controller; their refutations are at the end and are the
+     known findings of this property.
    [srv] is the API server, [lst] the lister the controller reads (informer lag). *)
 From stdpp Require Import gmap.
 From Coq Require Import ZArith List.
@@ -10,42 +20,65 @@ From V Require Import C13.Model C13.Laws C13.Lemmas C13.PreFix.
 Import ListNotations.
 Open Scope Z_scope.
 
-(* a queue's state changes only while a request for that queue is processed, and then
+(* STEP: a queue's state changes only while a request for that queue is processed, and then
    to the target of the state/*.go tables for the lister's state and the request's action *)
-Theorem C13_state_changes_only_by_request : forall s0 h e q a b, let s := run s0 h in
+Theorem C13_state_changes_only_by_request : forall s e q a b,
   sst (srv s) q = Some a -> sst (srv (step s e).1) q = Some b -> a <> b ->
   exists r v, proc_of s e = Some (r, v) /\ r_q r = q /\
               b = target (q_state v) (r_act r) (length (pgs_of (idx s) q)).
-Proof. exact only_by_request_hist. Qed.
+Proof. exact only_by_request. Qed.
 Print Assumptions C13_state_changes_only_by_request.
+
+(* HISTORY (induction over the event list, invariant [wq_wf]): along every history from a
+   start state whose pending handler-born requests are Syncs, a queue's state moves only
+   while a request for it is processed that stems from a command (Event CommandIssued),
+   from parent/child propagation (Event ""), or is an informer handler's Sync — and then
+   to the target of the state tables *)
+Theorem C13_moves_only_on_command_or_parent : forall s0 h e q a b, let s := run s0 h in
+  wq_wf s0 ->
+  sst (srv s) q = Some a -> sst (srv (step s e).1) q = Some b -> a <> b ->
+  exists r v, proc_of s e = Some (r, v) /\ r_q r = q /\
+    b = target (q_state v) (r_act r) (length (pgs_of (idx s) q)) /\
+    (r_ev r = EvCmd \/ r_ev r = EvNone \/ (r_ev r = EvOutOfSync /\ r_act r = ASync)).
+Proof. exact moves_only_on_command_or_parent. Qed.
+Print Assumptions C13_moves_only_on_command_or_parent.
+
+(* STEP: processing a request appends to the work queue only propagation requests
+   (Event "", Open / Close, no retries yet) followed by at most the retry of the processed
+   request (the Prop form of the core of law 108) *)
+Theorem C13_processing_appends_only_propagation_requests : forall s i r,
+  nth_error (wq s) i = Some r ->
+  exists l t, wq (proc s i).1 = remove_nth i (wq s) ++ l ++ t /\ Forall prop_req l /\ (t = [] \/ t = [retry r]).
+Proof. exact proc_emits. Qed.
+Print Assumptions C13_processing_appends_only_propagation_requests.
 
 (* with an up-to-date lister, a request that is neither Open nor Close (i.e. not a
    command and not parent propagation) only completes "" -> Open and Closing -> Closed *)
-Theorem C13_sync_never_opens_or_closes : forall s0 h e q a b, let s := run s0 h in
+Theorem C13_sync_never_opens_or_closes : forall s e q a b,
   lst s !! q = srv s !! q ->
   sst (srv s) q = Some a -> sst (srv (step s e).1) q = Some b -> a <> b ->
   exists r v, proc_of s e = Some (r, v) /\ r_q r = q /\
     (r_act r = AOpen \/ r_act r = AClose \/ (a = SEmpty /\ b = SOpen) \/ (a = SClosing /\ b = SClosed)).
-Proof. exact sync_moves_hist. Qed.
+Proof. exact sync_moves. Qed.
 Print Assumptions C13_sync_never_opens_or_closes.
 
 (* closing a not-yet-closed, non-root queue: Closing while its index holds PodGroups,
    Closed when it holds none *)
-Theorem C13_close_yields_closing_when_nonempty : forall s0 h i r v, let s := run s0 h in
+Theorem C13_close_yields_closing_when_nonempty : forall s i r v,
   nth_error (wq s) i = Some r -> lst s !! r_q r = Some v -> r_act r = AClose ->
   (proc s i).2 = OOk -> r_q r <> root -> q_state v <> SClosed -> q_state v <> SInvalid ->
   sst (srv s) (r_q r) = Some (q_state v) ->
   sst (srv (proc s i).1) (r_q r) = Some (closeish (length (pgs_of (idx s) (r_q r)))).
-Proof. exact close_result_hist. Qed.
+Proof. exact close_result. Qed.
 Print Assumptions C13_close_yields_closing_when_nonempty.
 
 (* Closed is entered only with an empty PodGroup index — at FULL strength: any lister
    view, however stale (holds since the repair 5018129 of syncQueue; the witness that
    refuted it on the previous code is C13_prefix_closed_with_podgroups_refuted below) *)
-Theorem C13_closed_entered_only_when_empty : forall s0 h e q a, let s := run s0 h in
+Theorem C13_closed_entered_only_when_empty : forall s e q a,
   sst (srv s) q = Some a -> a <> SClosed -> sst (srv (step s e).1) q = Some SClosed ->
   pgs_of (idx s) q = [].
-Proof. exact closed_only_when_empty_hist. Qed.
+Proof. exact closed_only_when_empty. Qed.
 Print Assumptions C13_closed_entered_only_when_empty.
 
 (* ... and against the PodGroups that REALLY exist (the PodGroup objects, not the
@@ -77,26 +110,26 @@ Print Assumptions C13_close_with_existing_podgroups_yields_closing.
 
 (* closing a parent marks every child the lister shows as not closed with
    closed-by-parent=true and enqueues a Close request for it *)
-Theorem C13_parent_close_propagates : forall s0 h i r v, let s := run s0 h in
+Theorem C13_parent_close_propagates : forall s i r v,
   nth_error (wq s) i = Some r -> lst s !! r_q r = Some v -> r_act r = AClose ->
   (proc s i).2 = OOk -> r_q r <> root ->
   is_closedish (q_state v) = false -> q_state v <> SInvalid ->
   forall c co, lst s !! c = Some co -> q_parent co = Some (r_q r) -> is_closedish (q_state co) = false ->
     (cbp_of (q_ann co) = Some true \/ scbp (srv (proc s i).1) c = Some true) /\
     In (mkReq c AClose EvNone 0) (wq (proc s i).1).
-Proof. exact close_propagates_hist. Qed.
+Proof. exact close_propagates. Qed.
 Print Assumptions C13_parent_close_propagates.
 
 (* re-opening opens the queue, clears its own marker and enqueues Open requests for
    exactly the children marked closed-by-parent (nothing else is enqueued) *)
-Theorem C13_reopen_reopens_exactly_marked_children : forall s0 h i r v, let s := run s0 h in
+Theorem C13_reopen_reopens_exactly_marked_children : forall s i r v,
   nth_error (wq s) i = Some r -> lst s !! r_q r = Some v -> r_act r = AOpen ->
   q_state v = SClosed \/ q_state v = SClosing \/ q_state v = SUnknown ->
   (proc s i).2 = OOk ->
   wq (proc s i).1 = remove_nth i (wq s) ++ reopen_reqs s (r_q r) /\
   sst (srv (proc s i).1) (r_q r) = Some SOpen /\
   (cbp_of (q_ann v) = Some false \/ scbp (srv (proc s i).1) (r_q r) = Some false).
-Proof. exact reopen_exact_hist. Qed.
+Proof. exact reopen_exact. Qed.
 Print Assumptions C13_reopen_reopens_exactly_marked_children.
 
 Theorem C13_reopen_requests_are_the_marked_children : forall s q x,
@@ -106,18 +139,18 @@ Theorem C13_reopen_requests_are_the_marked_children : forall s q x,
 Proof. exact reopen_reqs_exact. Qed.
 Print Assumptions C13_reopen_requests_are_the_marked_children.
 
-(* the root queue is never closed or closing, after any history *)
+(* HISTORY (induction): the root queue is never closed or closing *)
 Theorem C13_root_never_closed : forall s h, root_okP s -> root_okP (run s h).
 Proof. exact root_never_closed. Qed.
 Print Assumptions C13_root_never_closed.
 
 (* a closed / closing / unknown queue is not opened while the lister shows its parent
    (other than root) closed, closing or missing: the request fails, nothing is written *)
-Theorem C13_child_not_opened_under_closed_parent : forall s0 h i r v, let s := run s0 h in
+Theorem C13_child_not_opened_under_closed_parent : forall s i r v,
   nth_error (wq s) i = Some r -> lst s !! r_q r = Some v -> r_act r = AOpen ->
   parent_blocks s v = true -> q_state v <> SOpen -> q_state v <> SEmpty ->
   (proc s i).2 = OErr /\ srv (proc s i).1 = srv s.
-Proof. exact no_open_under_closed_parent_hist. Qed.
+Proof. exact no_open_under_closed_parent. Qed.
 Print Assumptions C13_child_not_opened_under_closed_parent.
 
 (* ---------- informer lag: full-strength statements, their witnesses, the repairs ---------- *)
@@ -168,9 +201,10 @@ Theorem C13_prefix_marked_child_not_reopened_refuted :
 Proof. exact prefix_marked_child_not_reopened_refuted. Qed.
 Print Assumptions C13_prefix_marked_child_not_reopened_refuted.
 
-(* ... since the repair, for EVERY state: the delivery of a closed child whose marker the
-   lister had not seen enqueues a Sync, and processing that Sync under an Open parent
-   enqueues the child's Open request *)
+(* ... since the repair, for EVERY state (two steps): the delivery of a closed child whose
+   marker the lister had not seen enqueues a Sync, and processing that Sync while the lister
+   shows the parent Open enqueues the child's Open request.  This repairs race C only; the
+   quiescent statement remains false (C13_quiescent_no_stuck_child_refuted below) *)
 Theorem C13_marked_child_heals : forall s c co lo p po,
   srv s !! c = Some co -> lst s !! c = Some lo ->
   cbp_of (q_ann co) = Some true -> cbp_of (q_ann lo) <> Some true ->
@@ -188,6 +222,49 @@ Example C13_raceC_repaired :
   caught_up s = true /\ law_no_stuck_child s = true /\
   sst (srv s) q2 = Some SOpen /\ sst (srv s) q3 = Some SOpen /\ scbp (srv s) q3 = Some false.
 Proof. exact raceC_repaired. Qed.
+
+(* ---------- QUIESCENCE: what is false (known findings, reproduced on the real controller) ---------- *)
+
+(* KNOWN FINDING C13-quiescent-marked-child-stuck: "re-opening a parent re-opens the
+   children it had closed" is FALSE as a statement about quiescent end states, also after the
+   repair b628b4b (which only covers the case where the child's marker reaches the lister
+   late).  From the all-Open forest root <- q2 <- q3: close q2 and re-open it at once;
+   strictly FIFO; q3's propagated Open is processed while the lister still shows q3 Open
+   (a no-op), its Close then closes it, nothing re-syncs it: caught up, nothing pending,
+   q2 Open, q3 Closed with closed-by-parent=true for ever *)
+Theorem C13_quiescent_no_stuck_child_refuted :
+  ~ (forall h, let s := run (open3_init SOpen None) h in caught_up s = true -> law_no_stuck_child s = true).
+Proof. exact quiescent_no_stuck_child_refuted. Qed.
+Print Assumptions C13_quiescent_no_stuck_child_refuted.
+
+(* the same end state WITHOUT any informer lag (the lister is delivered after every step):
+   two workers suffice, q3's Open overtakes q3's Close *)
+Example C13_quiescent_stuck_child_without_lag :
+  let s := run (open3_init SOpen None) stuckW1_nolag_history in
+  caught_up s = true /\ law_no_stuck_child s = false /\
+  sst (srv s) q2 = Some SOpen /\ sst (srv s) q3 = Some SClosed /\ scbp (srv s) q3 = Some true.
+Proof. exact quiescent_stuck_child_without_lag. Qed.
+
+(* KNOWN FINDING C13-quiescent-open-child-under-closed-parent: "closing a parent closes
+   its children" and "a child cannot be opened under a closed or closing parent" are FALSE
+   as statements about quiescent end states (C13_parent_close_propagates and
+   C13_child_not_opened_under_closed_parent are relative to the lister).  q3 closed by hand
+   under Open q2: (D) close q2, then open q3 while the lister still shows q2 Open;
+   (E) open q3, then close q2 while the lister still shows q3 Closed: caught up, nothing
+   pending, q2 Closed, q3 Open for ever *)
+Theorem C13_quiescent_children_follow_closed_parent_refuted :
+  ~ (forall h, let s := run (open3_init SClosed (Some (false, Some false))) h in
+               caught_up s = true -> law_children_follow_closed_parent s = true).
+Proof. exact quiescent_children_follow_closed_parent_refuted. Qed.
+Print Assumptions C13_quiescent_children_follow_closed_parent_refuted.
+
+Example C13_quiescent_open_child_both_orders :
+  let sD := run (open3_init SClosed (Some (false, Some false))) openD_history in
+  let sE := run (open3_init SClosed (Some (false, Some false))) openE_history in
+  caught_up sD = true /\ sst (srv sD) q2 = Some SClosed /\ sst (srv sD) q3 = Some SOpen /\
+  caught_up sE = true /\ sst (srv sE) q2 = Some SClosed /\ sst (srv sE) q3 = Some SOpen /\
+  law_children_follow_closed_parent sE = false.
+Proof. exact quiescent_open_child_both_orders. Qed.
 
 (* the extracted law checkers accept every step of the model *)
 Theorem C13_laws_accept_model : forall s e,
